@@ -15,7 +15,8 @@ EXPLANATION = (
     "credential uid (forward must-facts with null/auth disjunction), the uid operand is a credential (parameter or ncred_t field), and "
     "cmd_http's uid gate dominates all output. R11.2: path-sensitive walk of cmd_ical: each acted-upon instruction gets exactly one reply "
     "whose verb matches the sign of _inject_task1/_eject_task1. R11.3: the run-as uid/gid handed to the executor derive only from "
-    "dflt_cred, which is written only from compl_uid() of the authenticated uid.")
+    "dflt_cred, which is written only from compl_uid() of the authenticated uid. R11.4: every counted traversal of the shared task table runs over "
+    "[0, table size), so no user's tasks are skipped by listing/checkpointing loops.")
 NOT_DECIDED = "map semantics of the hash table under all histories (resize-until-separate is value-level); the behaviour itself"
 TRUSTED = ["clang 14 parser/CFG builder", "echse-facts extractor", "python rule engines in /verif/sa"]
 LEVEL_TEXT = ("Static verdict on necessary structural clauses of C11 over all paths of the daemon's command layer: authorisation dominates "
